@@ -39,6 +39,7 @@ type SeqModel struct {
 	// crafted initial stores (CraftN > 0): drawn at random by TLC
 	CraftN, CraftTasks, CraftEpics int
 	CraftLegacy                    bool
+	SimSample                      int // simulation only: successors drawn per step (0 = all)
 }
 
 func (m SeqModel) cfg(dev string, emit string, props, invs []string) string {
@@ -65,6 +66,7 @@ func (m SeqModel) cfg(dev string, emit string, props, invs []string) string {
 			mode = "legacy"
 		}
 	}
+	fmt.Fprintf(&b, "  SimSample = %d\n", m.SimSample)
 	fmt.Fprintf(&b, "  CraftMode = %q\n  CraftN = %d\n  CraftTasks = %d\n  CraftEpics = %d\n", mode, m.CraftN, m.CraftTasks, m.CraftEpics)
 	b.WriteString("VIEW StateView\n")
 	all := append([]string{}, invs...)
